@@ -235,7 +235,7 @@ func runHookConcurrency(t testing.TB, c *ev.Collector, srv *t38.Srv, ctl, sub *t
 				default:
 				}
 				if i%3 == 0 {
-					cn.Do("EVALNA", "local x = 0 for i = 1, 200000 do x = x + 1 end return KEYS[1]", "1", fmt.Sprintf("busy-%d", i), "50")
+					cn.Do("EVALNA", "local x = 0 for i = 1, 3000000 do x = x + 1 end return KEYS[1]", "1", fmt.Sprintf("busy-%d", i), "50")
 				} else if i%3 == 1 {
 					cn.Do("EVAL", "local x = 0 for i = 1, 20000 do x = x + 1 end tile38.call('set','other','o','field','speed',99,'point',5,5) return KEYS[1]", "1", fmt.Sprintf("atomic-%d", i), "10")
 				} else {
